@@ -54,7 +54,7 @@ def run(tier: str, budget: Budget, rnd, prop: str) -> StreamResult:
         objs = []
         for j in range(nobj):
             n = rnd.choice([2, 3, 3, 4, 4, 5])
-            samg = (rnd.random() < 0.25 and prop != "C03" and prop != "C01") or prop == "C04"
+            samg = (rnd.random() < 0.25 and prop not in ("C03", "C01", "C02")) or prop == "C04"
             v = G.sam_game(n, rnd) if samg else G.sa_game(n, rnd, kind=rnd.choice(["int", "dyadic"]),
                                                            neg_singletons=rnd.random() < 0.3)
             comp = rnd.choice(["sam:0", "sam:1", "sam:2", "sam:3"] if prop == "C04" else ["sam:1", "sam:2"]) if samg else rnd.choice(["sa", "sac"])
@@ -72,7 +72,7 @@ def run(tier: str, budget: Budget, rnd, prop: str) -> StreamResult:
             g, n, v, name = o["g"], o["n"], o["v"], o["name"]
             N = 2 ** n
             mn = set(G.minimal_ids(n))
-            op = rnd.choice(["setknown", "reveal", "reveal", "unreveal", "set", "unset", "stale", "stale_bulk",
+            op = rnd.choice(["setknown", "reveal", "reveal", "unreveal", "set", "unset", "stale", "stale_bulk", "setvalues",
                              "compute", "compute", "compute", "undo"])
             try:
                 if op == "setknown":
@@ -81,6 +81,13 @@ def run(tier: str, budget: Budget, rnd, prop: str) -> StreamResult:
                     g.set_known_values([float(v[k]) for k in K], [Coalition(k) for k in K])
                     ln = f"tab setknown {name} {nlist(K)} {rlist([v[k] for k in K])}"
                     o["K"] = set(K) | {0}
+                elif op == "setvalues":
+                    # batch set WITHOUT a reset (set_values(values, coalitions)): knowledge grows by several coalitions at once
+                    import numpy as np
+                    cs = rnd.sample(range(N), rnd.randint(1, min(4, N)))
+                    g.set_values(np.array([float(v[c]) for c in cs]), [Coalition(c) for c in cs])
+                    ln = f"tab setvalues {name} {nlist(cs)} {rlist([v[c] for c in cs])}"
+                    o["K"] |= set(cs)
                 elif op in ("reveal", "set"):
                     cand = [c for c in range(N) if c not in o["K"]] if op == "reveal" else list(range(N))
                     if not cand:
@@ -196,6 +203,15 @@ def run(tier: str, budget: Budget, rnd, prop: str) -> StreamResult:
                     if not (L[c] <= v[c] <= U[c]) or (c in o["K"] and not (L[c] == U[c] == v[c])):
                         res.violation(f"true value outside the interval of coalition {c} after a history", {**case, "coalition": c},
                                       key="bounds:unsound-after-history")
+                        break
+            if prop == "C02" and o["comp"] in ("sa", "sac") and n <= 4:
+                from corr_bounds import tight_bounds
+                tl, tu = tight_bounds(n, v, sorted(o["K"]))
+                for c in range(N):
+                    if L[c] != tl[c] or U[c] != tu[c]:
+                        res.violation(f"after a history the bound at coalition {c} is not the extreme over superadditive completions: "
+                                      f"computed [{rs(L[c])},{rs(U[c])}], exact [{rs(tl[c])},{rs(tu[c])}]", {**case, "coalition": c},
+                                      key="bounds:not-tight-after-history")
                         break
             if prop == "C04":
                 Ks = o["K"]
